@@ -11,6 +11,7 @@ import (
 	"path/filepath"
 	"regexp"
 	"strings"
+	"sync"
 	"time"
 
 	filehandler "github.com/goblimey/go-ntrip/file_handler"
@@ -731,6 +732,29 @@ func monTime(c *child.Ctx, replay json.RawMessage, anyStart bool) {
 		if c.WantSample() && nontriv && len(k.Msgs) < 12 {
 			c.Sample(k)
 		}
+	}
+	// handlers for different weeks created and used at the same time by different
+	// goroutines (a test harness, a server with one handler per connection)
+	{
+		ng := 4
+		per := c.Share(c.Pick(4000, 80000)) / ng
+		var wg sync.WaitGroup
+		for g := 0; g < ng; g++ {
+			wg.Add(1)
+			rg := ref.NewRand(r.Uint64() + uint64(g)*7919)
+			go func() {
+				defer wg.Done()
+				for i := 0; i < per && c.NViolations() == 0; i++ {
+					k, _ := genHistory(rg, anyStart)
+					k.ViaFile, k.FirstByteDelayMs = false, 0
+					cj, _ := json.Marshal(k)
+					execTime(c, k, cj, sig)
+				}
+			}()
+		}
+		wg.Wait()
+		c.Count("histories_run_side_by_side", int64(ng*per))
+		c.EvalN(1)
 	}
 	if anyStart {
 		// the documented use: displayrtcm3 <file> <any date of that week>, on machines
